@@ -454,6 +454,9 @@ structure ModSt where
   hmI : Handler (WireList Rec) × Mgr Rec := ({}, {})   -- ideal decoding through the as-is handler and manager
   lost : Bool := false            -- a payload outside the alphabet was delivered: nothing is claimed any more
   cause : String := ""
+  mode : String := "ptr"          -- ptr: the built-in handler; val: value slice to the updater; bad: wrongly typed property
+  attached : Bool := true         -- the handler is registered on the module's `datasource.Base`
+  rejects : Bool := false         -- the mode's converter and the updater do not fit: outside the property, the spec claims nothing
 
 structure FileSt where
   md : ModDef
@@ -507,20 +510,42 @@ def aliased (md : ModDef) : Option (WireList Rec) → Option (WireList Rec)
 /-- the `eqv` parameter of the model: Go's DeepEqual against the (aliased) remembered value -/
 def goEqv (md : ModDef) (v last : Option (WireList Rec)) : Bool := structEq v (aliased md last)
 
+/-- `ds.mode`: what the wrapped converter hands to the updater.  `val`: a value slice (`[]flow.Rule` …): nil elements become
+    zero rules; `bad`: a string, represented by one fixed non-nil value (it only ever meets itself and nil in a case) -/
+def modeConv (md : ModDef) (mode : String) (c : Conv (WireList Rec)) : Conv (WireList Rec) :=
+  let zero := zeroRec (if md.hotspot then hotspotCoreTags else md.tags)
+  match mode, c with
+  | "val", .ok (some (some xs)) => .ok (some (some (xs.map fun o => some (o.getD zero))))
+  | "bad", .ok (some _) => .ok (some (some []))
+  | _, c => c
+
+/-- the updater's type switch has no case for what it is given: `UpdatePropertyError` (cb has no value-slice case) -/
+def updaterRejects (md : ModDef) (mode : String) : Bool := mode = "bad" || (mode = "val" && md.name = "cb")
+
+def rejectingUpd (mo : Module Rec) (d : Option (WireList Rec)) (m : Mgr Rec) : Upd (Mgr Rec) :=
+  match d with
+  | none => loadUpd mo none m          -- `data == nil` is tested first: ClearRules
+  | some _ => .err m
+
 /-- one delivery; returns the new module state and the return value of `Handle` (`none` = outside) -/
 def deliverMod (md : ModDef) (ms : ModSt) (bytes : List Nat) (viaBase : Bool := false) : ModSt × Option (Ret × Ret) :=
   if ms.lost then (ms, none) else
-  match convOf md bytes, convIdeal md bytes with
+  if viaBase && !ms.attached then (ms, some (Ret.nil, Ret.nil)) else      -- a Base without handlers: nothing is delivered, nil
+  match (convOf md bytes).map (modeConv md ms.mode), (convIdeal md bytes).map (modeConv md ms.mode) with
   | some c, some ci =>
     -- the model proper
+    let eqv := if ms.mode = "ptr" then goEqv md else structEq        -- a value slice is copied by the updater: no aliasing
     let (hm', o) :=
-      if viaBase then                       -- through a `datasource.Base` with this one handler registered
-        let (hms, o) := baseDeliver (fun (_ : Unit) => c) (goEqv md) md.mo [ms.hm] ()
+      if updaterRejects md ms.mode then
+        let (h, m, o) := handle (fun (_ : Unit) => c) eqv (rejectingUpd md.mo) ms.hm.1 ms.hm.2 ()
+        ((h, m), o)
+      else if viaBase then                       -- through a `datasource.Base` with this one handler registered
+        let (hms, o) := baseDeliver (fun (_ : Unit) => c) eqv md.mo [ms.hm] ()
         (hms.headD ms.hm, o)
-      else deliver (fun (_ : Unit) => c) (goEqv md) md.mo ms.hm ()
+      else deliver (fun (_ : Unit) => c) eqv md.mo ms.hm ()
     let ret := match o with | .ret r => r | .panicked => Ret.nil
     -- the property as stated
-    let hmI' := (deliver (fun (_ : Unit) => ci) (goEqv md) md.mo ms.hmI ()).1
+    let hmI' := (deliver (fun (_ : Unit) => ci) eqv md.mo ms.hmI ()).1
     let (ideal', cause') := match ci with
       | .ok v =>
         let vs := validElems md.mo.valid v
@@ -542,7 +567,7 @@ def showRet : Ret → String
 /-- what is printed for an observation of a module's rules, with an optional `ok|err` prefix: in `model` mode the
     as-is state; in `spec` mode the property's claim (marked when the as-is model is known to deviate from it) -/
 def claim (spec : Bool) (ms : ModSt) (preAsis preIdeal : String) : String :=
-  if ms.lost then "?" else
+  if ms.lost || (spec && ms.rejects) then "?" else
   let asis := preAsis ++ showRules ms.hm.2.enforced
   if !spec then asis else
   let ideal := preIdeal ++ showRules ms.ideal
@@ -565,6 +590,8 @@ def handleOp (spec : Bool) (s : St) (m p : String) (viaBase : Bool) : St × Opti
   | some md, some bytes =>
     let (ms', r) := deliverMod md (getMod s m) bytes viaBase
     let s' := setMod s m ms'
+    -- a handler whose converter and updater do not fit is outside the property: the spec claims nothing (impl = model is still compared)
+    if spec && updaterRejects md ms'.mode then (s', some "?") else
     (match r with
      | none => (s', some "?")
      | some r =>
@@ -653,6 +680,19 @@ def customOp (spec : Bool) (s : St) (c u : String) : St × Option String :=
 def step (spec : Bool) (s : St) (ts : List String) (_line : String) : St × Option String :=
   match ts with
   | ["ds.custom", c, u] => customOp spec s c u
+  | ["ds.mode", m, mode] =>
+    if (mode != "val" && mode != "bad") || (findMod m).isNone || s.mods.any (·.1 = m) then (s, some "bad-op")
+    else (setMod s m { mode := mode, rejects := mode = "bad" || (mode = "val" && m = "cb") }, none)
+  | ["base.remove", m] => if (findMod m).isNone then (s, some "bad-op") else (setMod s m { getMod s m with attached := false }, none)
+  | ["base.add", m] => if (findMod m).isNone then (s, some "bad-op") else (setMod s m { getMod s m with attached := true }, none)
+  | ["specstr", k, p] =>
+    (match k.toInt?, payloadBytes p with
+     | some k, some bytes =>
+       let name := if k = 0 then "KindInt" else if k = 1 then "KindString" else if k = 2 then "KindBool"
+                   else if k = 3 then "KindFloat64" else "Undefined"
+       let str := String.ofList (bytes.map Char.ofNat)
+       (s, some (hexOfString ("SpecificValue: [ValKind: " ++ name ++ ", ValStr: " ++ str ++ "]")))
+     | _, _ => (s, some "bad-op"))
   | ["file.reinit"] =>
     (match s.file with
      | some f => (s, some (claim spec (getMod s f.md.name) "ok " "ok "))     -- isInitialized is set: nothing happens, nil returned
